@@ -576,7 +576,7 @@ def run(tier, seed, shard, nshards):
                                   (150, "mips", 30)]):
                 fam.append(("many", n_, cpu_, bl))
             for n_, cpu_ in ([(1500, "msp430"), (2500, "z80")] if tier == "quick" else
-                             [(1500, "msp430"), (2500, "z80"), (8000, "68000"), (30000, "msp430")]):
+                             [(1500, "msp430"), (2500, "z80"), (8000, "68000")]):
                 fam.append(("bulk", n_, cpu_))
             for i, f in enumerate(fam):
                 if i % nshards != shard:
